@@ -14,14 +14,22 @@ LEVEL = 'model_checking'
 
 
 def run(ctx, out):
-    ex = R.run_run(ctx, out, 'C17', {'C17', 'C18', 'C04', 'C05', 'C19'}, report={'C17', 'C18', 'C04', 'C05', 'C19'})
+    G = {'C17', 'C18', 'C04', 'C05', 'C19'}
+    ex = R.run_run(ctx, out, 'C17', G, report=G)
+    # the same harness with the REAL load::read parsing manifest text (only file reading and the log file are modelled)
+    if ctx.quick():
+        ex2 = R.run_run(ctx, out, 'C17', G, report=G, real_read=True, g1s=('plain',), g2s=('same', 'renamed'))
+    else:
+        ex2 = R.run_run(ctx, out, 'C17', G, report=G, real_read=True)
+    ex.paths += ex2.paths
+    ex.queries += ex2.queries
     cov = out.coverage
     cov.update({
         'states': ex.paths, 'transitions': ex.queries, 'traces_validated_against_impl': len(ex.failures),
         'samples': cov.get('samples') or [{'note': 'no path closed'}],
         'explanation': 'states = path classes over (generation-1 variant x generation-2 variant x targets x -f spelling x dirty bits x schedule x outcomes)',
         'bounds': {'generation 1': list(R.G1_VARIANTS), 'generation 2': list(R.GEN2), 'targets': R.TARGETS, 'filenames': [None, './build.ninja']},
-        'outside_the_claim': ['the generator\'s real effect on disk and the text of included files (load::read is modelled: it returns the new graph)',
+        'outside_the_claim': ['the generator\'s real effect on disk; included files (the second family runs the real load::read on single-file manifest text)',
                               'histories of several invocations'],
     })
     out.assumptions += ['load::read modelled (returns generation k on its k-th call; the manifest itself is file 0 as in the real loader)',
